@@ -1,6 +1,8 @@
 import PkgModel.Generated.PySrc
 import PkgModel.Specifier
 import PkgProofs.Lemmas.PyRt
+import PkgProofs.Lemmas.SrcRobust
+import PkgProofs.Lemmas.SrcLoops
 /-!
 # Translated source of `packaging.specifiers` = the model
 
@@ -19,12 +21,20 @@ theorem _pad_version_translated : Gen.PySrc._pad_version_supported = true := rfl
 theorem _is_not_suffix_eq_model (s : Str) :
     Gen.PySrc._is_not_suffix (.str s) = .ok (.bool (S.isNotSuffix s)) := by
   unfold Gen.PySrc._is_not_suffix
-  have h := anyM_ok (fun «prefix» => do PyRt.str_startswith (.str s) «prefix»)
-    (fun v => match v with | .str p => startsWith s p | _ => false)
-    [.str (ofString "dev"), .str (ofString "a"), .str (ofString "b"), .str (ofString "rc"), .str (ofString "post")]
-    (by intro x hx; simp at hx; rcases hx with rfl | rfl | rfl | rfl | rfl <;> rfl)
-  simp only [any_gen, iterate_tuple, ok_bind, h, pure_ok, truthy_bool]
-  simp [S.isNotSuffix]
+  first
+  | ( -- `not any(segment.startswith(p) for p in (...))`
+      have h := anyM_ok (fun «prefix» => do PyRt.str_startswith (.str s) «prefix»)
+        (fun v => match v with | .str p => startsWith s p | _ => false)
+        [.str (ofString "dev"), .str (ofString "a"), .str (ofString "b"), .str (ofString "rc"), .str (ofString "post")]
+        (by intro x hx; simp at hx; rcases hx with rfl | rfl | rfl | rfl | rfl <;> rfl)
+      simp only [any_gen, iterate_tuple, ok_bind, h, pure_ok, truthy_bool]
+      simp [S.isNotSuffix]
+      done)
+  | ( -- `not segment.startswith((...))`: `str.startswith` of a tuple tests each prefix in turn
+      simp only [str_startswith, List.foldr, ok_bind, pure_ok, truthy_bool, S.isNotSuffix]
+      cases h1 : startsWith s (ofString "dev") <;> cases h2 : startsWith s (ofString "a") <;>
+        cases h3 : startsWith s (ofString "b") <;> cases h4 : startsWith s (ofString "rc") <;>
+        cases h5 : startsWith s (ofString "post") <;> simp [h1, h2, h3, h4, h5])
 
 /-- `_version_join(components)` for every list of strings; the model's `none` is the `ValueError` of unpacking `[]` -/
 theorem _version_join_eq_model (l : List Str) :
@@ -47,24 +57,51 @@ theorem takewhile_isdigit (l : List Str) :
     obtain ⟨a, _, rfl⟩ := hx
     rfl
 
+theorem take_takeWhile_length {α} (p : α → Bool) (l : List α) : l.take (l.takeWhile p).length = l.takeWhile p := by
+  induction l with
+  | nil => rfl
+  | cons x xs ih => by_cases h : p x = true <;> simp [h, ih]
+
 /-- `_pad_version(left, right)` for all lists of strings -/
 theorem _pad_version_eq_model (l r : List Str) :
     Gen.PySrc._pad_version (ofStrs l) (ofStrs r) =
       .ok (.tuple [ofStrs (S.padVersion l r).1, ofStrs (S.padVersion l r).2]) := by
-  unfold Gen.PySrc._pad_version
-  simp only [ofStrs, takewhile_isdigit, ok_bind, list_iter, list_append_list, List.nil_append, List.cons_append,
-    getitem_list_zero, len_list, List.length_map, getslice_list_from, sub_int, max2_int, mul_singleton,
-    list_insert_one]
-  have hc : ∀ a b c : List PyVal, chain_from_iterable (.list [.list a, .list b, .list c]) = .ok (.iter (a ++ b ++ c)) := by
-    intro a b c
-    have := chain_from_iterable_lists [a, b, c]
-    simpa using this
-  simp only [hc, ok_bind, list_iter, pure_ok, S.padVersion, List.map_append, List.map_drop, List.map_replicate]
-  have e1 : (max 0 (((r.takeWhile S.isDigitStr).length : Int) - (l.takeWhile S.isDigitStr).length)).toNat
-      = (r.takeWhile S.isDigitStr).length - (l.takeWhile S.isDigitStr).length := by omega
-  have e2 : (max 0 (((l.takeWhile S.isDigitStr).length : Int) - (r.takeWhile S.isDigitStr).length)).toNat
-      = (l.takeWhile S.isDigitStr).length - (r.takeWhile S.isDigitStr).length := by omega
-  rw [e1, e2]
-  rfl
+  first
+  | ( -- `takewhile` / `insert` / `chain.from_iterable`
+      unfold Gen.PySrc._pad_version
+      simp only [ofStrs, takewhile_isdigit, ok_bind, list_iter, list_append_list, List.nil_append, List.cons_append,
+        getitem_list_zero, len_list, List.length_map, getslice_list_from, sub_int, max2_int, mul_singleton,
+        list_insert_one]
+      have hc : ∀ a b c : List PyVal, chain_from_iterable (.list [.list a, .list b, .list c]) = .ok (.iter (a ++ b ++ c)) := by
+        intro a b c
+        have := chain_from_iterable_lists [a, b, c]
+        simpa using this
+      simp only [hc, ok_bind, list_iter, pure_ok, S.padVersion, List.map_append, List.map_drop, List.map_replicate]
+      have e1 : (max 0 (((r.takeWhile S.isDigitStr).length : Int) - (l.takeWhile S.isDigitStr).length)).toNat
+          = (r.takeWhile S.isDigitStr).length - (l.takeWhile S.isDigitStr).length := by omega
+      have e2 : (max 0 (((l.takeWhile S.isDigitStr).length : Int) - (r.takeWhile S.isDigitStr).length)).toNat
+          = (l.takeWhile S.isDigitStr).length - (r.takeWhile S.isDigitStr).length := by omega
+      rw [e1, e2]
+      rfl
+      done
+    )
+  | ( -- a counting loop for the length of the release segment, two list displays with unpacking
+      unfold Gen.PySrc._pad_version
+      simp only [ofStrs, iterate_list, ok_bind]
+      have hd : ∀ x : Str, str_isdigit (.str x) = .ok (.bool (S.isDigitStr x)) := fun _ => rfl
+      rw [show (PyVal.int 0) = PyVal.int ((0 : Nat) : Int) from rfl]
+      rw [forIn_count_while PyVal.str S.isDigitStr _ ?h1 ?h2 l 0, ok_bind,
+          forIn_count_while PyVal.str S.isDigitStr _ ?h1 ?h2 r 0]
+      case h1 => intro x n hx; simp [hd, hx]
+      case h2 => intro x n hx; simp [hd, hx, add_int]
+      simp only [ok_bind, Nat.zero_add, sub_int, max2_int, mul_singleton, getslice_list_to, getslice_list_from,
+        list_extend_list_list, pure_ok, List.nil_append, S.padVersion, List.map_append, List.map_drop, List.map_replicate,
+        ← List.map_take, take_takeWhile_length]
+      have e1 : (max ((0 : Nat) : Int) (((r.takeWhile S.isDigitStr).length : Int) - (l.takeWhile S.isDigitStr).length)).toNat
+          = (r.takeWhile S.isDigitStr).length - (l.takeWhile S.isDigitStr).length := by omega
+      have e2 : (max ((0 : Nat) : Int) (((l.takeWhile S.isDigitStr).length : Int) - (r.takeWhile S.isDigitStr).length)).toNat
+          = (l.takeWhile S.isDigitStr).length - (r.takeWhile S.isDigitStr).length := by omega
+      rw [e1, e2]
+      rfl)
 
 end Src
